@@ -1,6 +1,6 @@
 #!/bin/bash
-# tools/keep_seed.sh <ID> : copy a confirmed seeded change from /tmp/seeded_out/<ID> into /verif/seeded/<ID>/ (patch, demo, report; no binaries, no logs)
-ID="$1"; SRC=/tmp/seeded_out/$ID; DST="$(cd "$(dirname "$0")/.." && pwd)/seeded/$ID"; mkdir -p "$DST"
+# tools/keep_seed.sh <ID> [<source dir> [<name>]] : copy a confirmed seeded change (default source /tmp/seeded_out/<ID>) into /verif/seeded/<name>/ (patch, demo, report; no binaries, no logs)
+ID="$1"; SRC="${2:-/tmp/seeded_out/$ID}"; NAME="${3:-$ID}"; DST="$(cd "$(dirname "$0")/.." && pwd)/seeded/$NAME"; mkdir -p "$DST"
 cp "$SRC/patch.diff" "$DST/"; for f in demo.cpp demo.py demo.sh REPORT.md run_private_proto.sh; do [ -f "$SRC/$f" ] && cp "$SRC/$f" "$DST/"; done
 for f in "$SRC"/demo*out* "$SRC"/demo_*.txt; do [ -f "$f" ] && [ $(stat -c %s "$f") -lt 20000 ] && cp "$f" "$DST/"; done
 ls "$DST"
